@@ -28,6 +28,9 @@ CHECKS = {
  "C09": dict(engine="I", tech=I, ref="DESIGN.md §3 C09",
    text="Marshal->Unmarshal->Equal over member counts around the 63/64 encoding switch in five placements and all subsets of a 12-index alphabet; Unmarshal of all byte strings of length 0..2, length 3-4 over a 6-byte alphabet and structured fills (zero/ff/ascending/one invalid element at each position/duplicates) for every length 5..130 against the denoted set; 64-bit and 32-bit block types over boundary starts (2^22±1, 2^31, 2^32-2, max) with every in-block offset for the tips: iterate-back, same-block acceptance, ascending/descending.",
    note="structured families instead of all int64/uint32; list-form reverse order of BigU32s is only checked for count (statement is silent on list order)"),
+ "C06": dict(engine="H", tech=H, ref="DESIGN.md §3 C06",
+   text="Every history of clock readings relative to the generator's current millisecond (backwards, stalled, forward, far future; restart with the last id) up to length 5 quick / 7 thorough on the real HardNode from start states seeded at the step wrap; MonoNode under a virtual non-decreasing clock with stalled readings inside its spin loop after a 4094-call warm-up; UnixNanoID ts histories of length 7/9; each of the 12 layouts (node bits x node-at-lowest x epoch) in its own process.",
+   note="clock seams: snowflake._HookNow via overlay hook, time.Now/Since in mono.go and nano.go redirected to zverif/vtime by the overlay; readings stay inside the timestamp width"),
 }
 NA = {}
 
